@@ -262,3 +262,12 @@ FullSync<'static, ItemType, BUFFER_SIZE, MAX_STREAMS> {
     type ItemType            = ItemType;
     type DerivedItemType     = Arc<ItemType>;
 }
+
+#[cfg(feature = "verif")]
+impl<'a, ItemType: Send + Sync + Debug + Default, const BUFFER_SIZE: usize, const MAX_STREAMS: usize>
+crate::verif::VerifState for FullSync<'a, ItemType, BUFFER_SIZE, MAX_STREAMS> {
+    fn verif_state(&self, out: &mut Vec<u64>) {
+        self.streams_manager.verif_state(out);
+        for channel in self.channels.iter() { channel.verif_state(out) }
+    }
+}
